@@ -30,6 +30,9 @@ def run(ctx):
     from . import c05 as _c05
     _reuse(ctx, _c05.temp_rule, ("C05.temp",), "C09site", "call-site rule shared with C05: the temperature handed to resample() is the end of the move the incremental weights are computed for, "
            "and the one the resampled population is labelled with -- it must be the temperature the kernel then targets")
+    from . import c10 as _c10
+    _reuse(ctx, lambda c: _c10.own_rule(c, only_module="aspire.samples"), ("C10.own",), "C09own", "ownership rule shared with C10: the probability vector handed to the generator and the rows the "
+           "indices select are used after they were computed; code in between (a diagnostic that sorts its argument, say) must not write into them, or particle i is offered another particle's weight")
     S = repo.cls("aspire.samples:SMCSamples")
     m = S.resolve("resample")
     if m is None:
@@ -230,4 +233,9 @@ NEUTRALS = [
 ANCHORS = [
     'aspire.samples:SMCSamples.resample',
     'aspire.samples:SMCSamples.log_weights',
+]
+
+MUTANTS += [
+    M("debug summary sorts the probability vector it is given", "src/aspire/samples.py", "idx = rng.choice(len(self.x), size=n_samples, replace=True, p=w)", "_ = _sorted_summary(w)\n        idx = rng.choice(len(self.x), size=n_samples, replace=True, p=w)", "C09own.own",
+      more=[("class SMCSamples(BaseSamples):", "def _sorted_summary(w):\n    w = np.asarray(w)\n    w.sort()\n    return str(w[-1])\n\n\nclass SMCSamples(BaseSamples):")]),
 ]
